@@ -489,6 +489,23 @@ def build(sp, gt, rnd, stats=None, want_builder=False):
     return ir, b.nodes
 
 
+def loaded_aux_values(rnd, gt, ir, share=0.6):
+    """(holder uuid hex, key) -> (value object as the table hands it out,
+    parsed type) for a random share of the tables of a loaded IR: reading
+    .data is what a caller does before editing a container in place."""
+    out = {}
+    for h in [ir] + list(ir.modules):
+        for k, ad in sorted(h.aux_data.items()):
+            if rnd.random() >= share:
+                continue
+            try:
+                t = refcodec.parse(ad.type_name)
+            except Exception:
+                continue
+            out[(h.uuid.hex, k)] = (ad.data, t)
+    return out
+
+
 def mutate_live(rnd, gt, sp, nodes, aux_values, count):
     """Edit a live, already saved IR through public attributes and through
     references the caller kept (AuxData containers); returns the updated
@@ -594,18 +611,9 @@ def mutate_live(rnd, gt, sp, nodes, aux_values, count):
         if k <= 2 and aux_values:
             (hu, key), (v, t) = rnd.choice(sorted(
                 aux_values.items(), key=lambda kv: kv[0]))
-            name, kids = t
-            try:
-                if name == "sequence" and isinstance(v, list):
-                    v.append(auxgen.gen_value(rnd, kids[0], P()))
-                elif name == "set" and isinstance(v, set):
-                    v.add(auxgen.gen_value(rnd, kids[0], P(), True))
-                elif name == "mapping" and isinstance(v, dict):
-                    v[auxgen.gen_value(rnd, kids[0], P(), True)] = \
-                        auxgen.gen_value(rnd, kids[1], P())
-                else:
-                    continue
-            except TypeError:
+            # the first container found inside the value (through tuples,
+            # variants, elements and values) is edited in place
+            if not auxgen.mutate_nested(rnd, v, t, P()):
                 continue
             holder_spec(hu)["aux"][key]["pv"] = codecmon.to_json(
                 refcodec.neutral(v, t))
